@@ -30,11 +30,12 @@ class Site:
 
 
 class EffectSystem:
-    def __init__(self, repo, rows, pure_prefixes=("ast.", "typing.", "enum.", "abc.", "collections."), prefix_rows=None):
+    def __init__(self, repo, rows, pure_prefixes=("ast.", "typing.", "enum.", "abc.", "collections."), prefix_rows=None, extra_methods=None):
         self.repo = repo
         self.rows = dict(rows)
         self.pure_prefixes = pure_prefixes
         self.prefix_rows = dict(prefix_rows or {})
+        self.extra_methods = dict(extra_methods or {})      # method name -> effect row, for receivers of external classes
         self.real = [m for m in repo.trees if m not in getattr(repo, "virtual", set())]
         # method name -> [qualified function], property name -> [...]
         self.by_method, self.props = {}, {}
@@ -271,6 +272,8 @@ class EffectSystem:
             out.append(("ext", f"<stream>.{m}"))
         elif m in BUILTIN_METHODS:
             out.append(("ext", f"<builtin-type>.{m}"))
+        elif m in self.extra_methods:
+            out.append(("ext", f"<external-object>.{m}"))
         if not out:
             out.append(("unknown-method", m))
         return out
@@ -290,6 +293,8 @@ class EffectSystem:
             return self.rows[name]
         if name.startswith("<builtin-type>.") or name == "<builtin-exception-or-object>":
             return ()
+        if name.startswith("<external-object>."):
+            return self.extra_methods[name.split(".", 1)[1]]
         if name.startswith("<stream>."):
             e = STREAM_METHODS[name.split(".", 1)[1]]
             return (e,) if e else ()
